@@ -281,6 +281,36 @@ fn points(tier: Tier) -> Vec<Point> {
             }
         }
     }
+    // ---- sketch index sweep: every counter position of every row, for widths around every power of two
+    for &n in &[1usize, 2, 3, 4, 5, 7, 8, 9, 15, 16, 17, 18, 31, 32, 33, 47, 48, 49, 63, 64, 65, 100, 127, 128, 129, 255, 256, 257, 1000, 1023, 1024, 1025, 4097] {
+        pt!(format!("TinyLFU::new({}, 100000, 0.01): record and query every hash residue 0..4*size and hashes near 2^32 / 2^64", n), Expect::Ok, move || {
+            TinyLFU::<u64>::new(n, 100_000, 0.01)
+                .map(|mut l| {
+                    let top = (4 * n as u64).max(8);
+                    for h in (0..top).chain((1u64 << 32) - 2..(1u64 << 32) + 2).chain(u64::MAX - top..=u64::MAX) {
+                        l.increment_hashed_key(h);
+                        l.increment_hashed_key(h);
+                        let e = l.estimate_hashed_key(h);
+                        assert!(e >= 2, "estimate {} after two accesses of hash {:#x} (size {})", e, h, n);
+                    }
+                })
+                .map_err(|e| format!("{}", e))
+        });
+    }
+    // the same through W-TinyLFU, whose sketch width is the sum of its three sizes
+    for &(w, p, q) in &[(1usize, 8usize, 8usize), (1, 16, 16), (3, 30, 32), (1, 2, 2), (5, 6, 6)] {
+        pt!(format!("WTinyLFUCache::with_sizes({}, {}, {}, 100000): get and put 4x(sum of sizes) distinct keys", w, p, q), Expect::Ok, move || {
+            WTinyLFUCache::<u64, u64>::with_sizes(w, p, q, 100_000)
+                .map(|mut c| {
+                    for k in 0..(4 * (w + p + q) as u64) {
+                        let _ = c.get(&k);
+                        let _ = c.get(&k);
+                        let _ = c.put(k, k);
+                    }
+                })
+                .map_err(|e| format!("{}", e))
+        });
+    }
     // ---- SampledLFU: no validation, never panics
     for &m in &[i64::MIN, -1, 0, 1, 100, i64::MAX] {
         for &s in &sampless {
